@@ -399,8 +399,8 @@ def scalarise_tuples(fn, arity):
     return True
 
 
-def peval_node(func_node, tables, arity=None):
-    """partially evaluated deep copy of a FunctionDef"""
+def peval_node(func_node, tables, arity=None, bind=None):
+    """partially evaluated deep copy of a FunctionDef; bind: {parameter name: constant} specialises the function for those argument values"""
     fn = copy.deepcopy(func_node)
     if arity is not None:
         scalarise_tuples(fn, arity)
@@ -412,7 +412,10 @@ def peval_node(func_node, tables, arity=None):
     single = {k for k, v in counts.items() if v == 1 and k not in params}
     for _ in range(4):
         pe = _PE(tables, single, params)
-        fn.body = pe.block(fn.body, {"<stored>": set()})
+        env0 = {"<stored>": set()}
+        for k_, v_ in (bind or {}).items():
+            env0[k_] = ast.Constant(value=v_)
+        fn.body = pe.block(fn.body, env0)
         if not pe.changed:
             break
         # unrolling makes more names multiply assigned; recompute for the next round
